@@ -244,6 +244,8 @@ err_t bignIdSign(octet id_sig[], const bign_params* params,
 	// s1 <- (k - s1 - H) mod q
 	zzSubMod(s1, k, s1, ec->order, n);
 	wwFrom(k, hash, no);
+	if (wwCmp(k, ec->order, n) >= 0)
+		zzSub2(k, ec->order, n);
 	zzSubMod(s1, s1, k, ec->order, n);
 	// выгрузить s1
 	wwTo(id_sig + no / 2, no, s1);
@@ -373,6 +375,8 @@ err_t bignIdSign2(octet id_sig[], const bign_params* params,
 	// s1 <- (k - s1 - H) mod q
 	zzSubMod(s1, k, s1, ec->order, n);
 	wwFrom(k, hash, no);
+	if (wwCmp(k, ec->order, n) >= 0)
+		zzSub2(k, ec->order, n);
 	zzSubMod(s1, s1, k, ec->order, n);
 	// выгрузить s1
 	wwTo(id_sig + no / 2, no, s1);
